@@ -31,6 +31,14 @@ for d in ids:
         lines = [l for l in o.splitlines() if l.startswith("VIOLATION") or l.startswith("  signature") or l.startswith("INFRA")]
         v.setdefault("checks", {})[prop] = {"exit": c, "caught": c == 1, "first": [l[:300] for l in lines[:4]]}
         v["final_rerun"] = "applied to the final head"
-        print(d, "caught" if c == 1 else f"NOT CAUGHT (exit {c})")
+        verdict = "caught" if c == 1 else f"NOT CAUGHT (exit {c})"
+        if c == 0 and m.get("demo_cmd"):
+            # not caught: does the change still break anything on this head? (a later fix: can make a seeded change harmless)
+            dc, do = sh(m["demo_cmd"].replace("<worktree>", scratch), sd, 1200)
+            if dc == 0 and "FAIL" not in do:
+                v["final_rerun"] = "applied to the final head, where it no longer breaks the property: its own demonstration passes (void; stored outcome from the head it was made for kept below)"
+                v["checks"][prop]["void_on_final_head"] = True
+                verdict = "VOID (demonstration passes on the final head)"
+        print(d, verdict)
     sh(f"git -C /repo worktree remove --force {scratch}")
     json.dump(m, open(f"{sd}/meta.json", "w"), indent=1)
